@@ -200,6 +200,9 @@ CATALOGUE = [
     ("woff2-glyf-overlap-bitmap-always-written", "ttLib/woff2.py", "        if hasOverlapSimpleBitmap:\n            data += self.overlapSimpleBitmap.tobytes()\n        return data", "        data += self.overlapSimpleBitmap.tobytes()\n        return data", "C04", "WOFF2GlyfContainerRoundTrip", "alarm"),
     ("woff2-loca-short-limit-off-by-one", "ttLib/woff2.py", "                if max_location >= 0x20000:", "                if max_location > 0x20000:", "C04", "WOFF2LocaCompile", "alarm"),
     ("woff2-private-data-padding", "ttLib/woff2.py", "            offset = (offset + 3) & ~3\n            self.privOffset = offset", "            offset = (offset + 4) & ~3\n            self.privOffset = offset", "C04", "WOFF2FlavorDataOffsets", "alarm"),
+    ("woff2-orig-offsets-unpadded", "ttLib/woff2.py", "            offset += (entry.origLength + 3) & ~3\n        return offset", "            offset += entry.origLength\n        return offset", "C04", "WOFF2OrigOffsets", "alarm"),
+    ("woff2-master-checksum-compressed-offsets", "ttLib/woff2.py", "            sfntEntry.offset = entry.origOffset", "            sfntEntry.offset = entry.offset", "C04", "WOFF2MasterChecksum", "alarm"),
+    ("woff2-total-size-pads-before-compressed", "ttLib/woff2.py", "        offset += self.totalCompressedSize\n        offset = (offset + 3) & ~3", "        offset = (offset + 3) & ~3\n        offset += self.totalCompressedSize", "C04", "WOFF2TotalSize", "alarm"),
     ("closure-memo-subset-spelling", "subset/__init__.py", "    if cur_glyphs.issubset(covered):\n        return\n    covered.update(cur_glyphs)\n\n    for st in self.SubTable:", "    if cur_glyphs <= covered:\n        return\n    covered.update(cur_glyphs)\n\n    for st in self.SubTable:", "C07", "LookupClosureMemo", "green"),
 ]
 
